@@ -35,6 +35,7 @@ func init() {
 			{Name: "fixable-skips-introducing-patches", File: "guidedremediation/guidedremediation.go", Old: "	for _, p := range allPatches {\n		for _, v := range p.Fixed {", New: "	for _, p := range allPatches {\n		if len(p.Introduced) > 0 {\n			continue\n		}\n		for _, v := range p.Fixed {", Rule: "D5-unactionable", Site: "computeVulnsResult"},
 			{Name: "choose-ignores-nointroduce", File: "guidedremediation/guidedremediation.go", Old: "		if noIntroduce && len(patch.Introduced) > 0 {\n			continue\n		}\n", New: "", Rule: "D3-update-is-diff", Site: "choosePatches"},
 		},
+		Neutral: c12Neutral,
 	})
 }
 
@@ -53,7 +54,7 @@ var c12Sanctioned = map[string][]string{
 		"slices.ContainsFunc(‹param0[(φ:int+1:int)]›.PackageUpdates,*ssa.MakeClosure)",
 		"slices.ContainsFunc(‹param0[(φ:int+1:int)]›.Fixed,*ssa.MakeClosure)",
 		// the no-introduce option (second half of `noIntroduce && len(patch.Introduced) > 0`)
-		"0:int < builtin.len(‹param0[(φ:int+1:int)]›.Introduced)",
+		"builtin.len(‹param0[(φ:int+1:int)]›.Introduced) != 0 && param2",
 	},
 	// the fixable set and the reported list are built without omissions: loop ends only
 	"guidedremediation.computeVulnsResult": {
@@ -68,7 +69,7 @@ var c12Sanctioned = map[string][]string{
 		// the strategy could not patch these vulnerabilities
 		"nil:error != ‹<-‹*ssa.MakeChan››.Err",
 		// the strategy changed nothing
-		"0:int == builtin.len(‹guidedremediation/internal/remediation.ConstructPatches(‹param1›,‹<-‹*ssa.MakeChan››.Resolved)›.PackageUpdates)",
+		"builtin.len(‹guidedremediation/internal/remediation.ConstructPatches(‹param1›,‹<-‹*ssa.MakeChan››.Resolved)›.PackageUpdates) == 0",
 	},
 }
 
